@@ -532,8 +532,20 @@ static void do_action(const char *a)
 				rc = iv_event_raw_register(orw[j]);
 
 				vk_trace("A rr%d=%d", j, rc ? -1 : 0);
-				if (rc == 0)
+				if (rc == 0) {
+					int fr = vk_fd_flags(orw[j]->event_rfd.fd);
+					int fw = vk_fd_flags(orw[j]->event_wfd);
+
 					rw_reg[j] = 1;
+					/* "posting never blocks the poster" (C09) and descriptor hygiene (C18): both ends of a
+					   raw event must be non-blocking and close-on-exec, whatever the transport; a
+					   blocking write end only shows after 65536 undrained posts, so it is checked here.
+					   The extra segment is not part of the model's trace language: it makes the run
+					   diverge and the trace monitor reject the trace. */
+					if (fr != 3 || fw != 3)
+						vk_trace("X rr%d: descriptor flags after iv_event_raw_register: read end %d write end %d "
+							 "(bit0 O_NONBLOCK, bit1 FD_CLOEXEC; both must be 3)", j, fr, fw);
+				}
 			}
 			break;
 		case 'u':
